@@ -117,8 +117,22 @@ def check(ctx):
             if c_["dst"]["p"]: continue
             for (tb, ok_t, err_t) in util.option_test_edges(body, dg, c_["dst"]["l"]):
                 if ok_t != err_t: ok_edges.add((tb, ok_t))
-        for (x, y) in exits:
-            ok_exit = ok_exit and (x, y) in ok_edges
+        direct = all((x, y) in ok_edges for (x, y) in exits)
+        if not direct and exits:
+            # the answer of the attempt may travel through a flag (`while !self.try_register_ended_status() {..}` with the helper inlined, `let done = a.is_ok() || b.is_ok()`):
+            # flag-aware exploration from the loop header that ends a path wherever one of the two transitions is known to have succeeded -- no loop exit may remain reachable
+            cas_blocks = {cb_ for (cb_, _) in cas}
+            def _succeeded(facts):
+                for (e, truth) in facts:
+                    if e[0] == "call" and e[1].split("::")[-1] in ("is_ok", "is_err") and len(e[2]) == 1:
+                        a = strip_casts(e[2][0])
+                        while a[0] in ("ref?", "deref") and isinstance(a[-1], tuple): a = a[-1]
+                        if a[0] == "call" and a[1].endswith("compare_exchange") and len(a) > 3 and a[3] in cas_blocks:
+                            if truth == (e[1].split("::")[-1] == "is_ok"): return True
+                return False
+            reach = util.flag_paths(body, dg, h, cut=_succeeded)
+            direct = not (reach & {y for (_, y) in exits})
+        ok_exit = ok_exit and direct
     ctx.ob("R12.2", f"{k}|returns-only-after-a-successful-transition", ok_exit, site, "the retry loop is left only on the is_ok() edge of one of the two transitions")
     st_fin = [(b, c) for (b, c) in body.calls if c.get("fname") == "store" and "execution_finish_delta_nanos" in show(dg.expr(c["args"][0]))]
     ok = len(st_fin) == 1 and bool(hs) and st_fin[0][0] not in body.loops[max(hs, key=lambda x: len(body.loops[x]))] and all(body.dominates(b, st_fin[0][0]) for (b, _) in cas[:1])
